@@ -45,7 +45,9 @@ SEED_FILES = {
 }
 OPS = ([["read", c, f] for c in ("AmplitudeChain", "GooFitChain", "GooFitPyChain") for f in FILES]
        + [["readtext", c, f] for c in ("AmplitudeChain", "GooFitPyChain") for f in FILES]   # the same reader given the text instead of the file name
-       + [["convert", l, f] for l in ("cpp", "py") for f in FILES])
+       + [["convert", l, f] for l in ("cpp", "py") for f in FILES]
+       # the same conversion in print mode (the default, and what the command line does); standard output captured
+       + [["print", l, f] for l in ("cpp", "py") for f in ("A", "B")])
 _DIR = None
 
 
@@ -109,8 +111,16 @@ def do_call(op):
             pars, consts = cls.pars, cls.consts
         return {"kind": "read", "lines": [sig(ln) for ln in lines], "states": [int(p.pdgid) for p in states], "pars": table(pars), "consts": table(consts)}
     fn = {"cpp": ampgen2goofit, "py": ampgen2goofitpy}[who]
-    text = fn(path, ret_output=True)
-    return {"kind": "convert", "canon": canon_text(text, who), "text": strip_timestamp(text)}
+    if kind == "print":
+        import contextlib
+        import io
+        buf = io.StringIO()
+        with contextlib.redirect_stdout(buf):
+            fn(path)
+        text = buf.getvalue()
+    else:
+        text = fn(path, ret_output=True)
+    return {"kind": kind, "canon": canon_text(text, who), "text": strip_timestamp(text)}
 
 
 def run_history(hist, check_all=False):
